@@ -60,6 +60,12 @@ func (g *gen) call(st *State, instr ssa.Instruction, cc *ssa.CallCommon, res ssa
 			g.bindResult(res, g.freshResult(st, rt, cc.Method.Name()))
 			return
 		}
+		if g.eng.isHeapNeutralEffect(key) {
+			g.eng.useAssumption("assume heap-neutral effect " + key)
+			g.effect(st, "call of "+key, nil)
+			g.bindResult(res, g.freshResult(st, rt, cc.Method.Name()))
+			return
+		}
 		g.unknownCall(st, key, args, rt, res)
 		return
 	}
@@ -125,8 +131,17 @@ func (g *gen) staticCall(st *State, fn *ssa.Function, args []*Val, rt types.Type
 		g.bindResult(res, g.applyContract(st, con, args, rt, lbl))
 		return
 	}
+	if len(args) > 0 && g.mutexOp(st, key, args[0], lbl) {
+		return
+	}
 	if g.eng.isAssumedPure(key) {
 		g.eng.useAssumption("assume-pure " + key)
+		g.bindResult(res, g.freshResult(st, rt, fn.Name()))
+		return
+	}
+	if g.eng.isHeapNeutralEffect(key) {
+		g.eng.useAssumption("assume heap-neutral effect " + key)
+		g.effect(st, "call of "+key, nil)
 		g.bindResult(res, g.freshResult(st, rt, fn.Name()))
 		return
 	}
@@ -161,6 +176,7 @@ func (g *gen) unknownCall(st *State, key string, args []*Val, rt types.Type, res
 			deep = true
 		}
 	}
+	g.effect(st, "call of "+shortName(key), nil)
 	if deep {
 		g.note("call without contract: %s — heap havoced", key)
 		g.havocAll(st, "call")
@@ -187,6 +203,32 @@ func (g *gen) assumePre(st *State) {
 		f := g.evalBool(c.Expr, env, false)
 		g.assumeGlobal(f)
 		g.preTerms = append(g.preTerms, f)
+	}
+	for _, c := range g.con.Guards {
+		f := g.evalBool(c.Expr, env, true)
+		g.guards = append(g.guards, guardSpec{label: c.Label, term: f, text: c.Text})
+	}
+}
+
+type guardSpec struct {
+	label string
+	term  *Term
+	text  string
+}
+
+// effect: an observable effect happens here; it must be dominated by every
+// declared guard. exempt is a condition under which the write is invisible
+// (memory allocated during this call).
+func (g *gen) effect(st *State, what string, exempt *Term) {
+	if g.dry > 0 || len(g.guards) == 0 {
+		return
+	}
+	for _, gd := range g.guards {
+		goal := gd.term
+		if exempt != nil {
+			goal = Or(exempt, gd.term)
+		}
+		g.oblige(st, "guard", gd.label, goal, "effect ("+what+") reachable only when: "+gd.text)
 	}
 }
 
@@ -246,6 +288,9 @@ func (g *gen) applyContract(st *State, con *Contract, args []*Val, rt types.Type
 	for _, c := range con.Requires {
 		f := g.evalBool(c.Expr, env, true)
 		g.oblige(st, "pre", short+":"+c.Label+"@"+lbl, f, c.Text)
+	}
+	if !con.Pure {
+		g.effect(st, "call of "+short, nil)
 	}
 	// frame
 	if con.ModAll {
@@ -602,10 +647,10 @@ func (g *gen) checkElemsFrame(st *State, dst *Val, pos token.Pos) {
 	save := st.reach
 	st2 := &State{reach: And(st.reach, Lt(Int(0), dst.Len())), heap: st.heap, wm: st.wm}
 	_ = save
-	g.checkFrameElems(st2, p, pos)
+	g.checkFrameElems(st2, p, pos, nil)
 }
 
-func (g *gen) checkFrameElems(st *State, p *Val, pos token.Pos) {
+func (g *gen) checkFrameElems(st *State, p *Val, pos token.Pos, count *Term) {
 	allowed := Lt(g.entry.wm, p.L[0])
 	env := g.specEnv(g.entry, g.entry)
 	for _, m := range g.con.Modifies {
@@ -616,6 +661,15 @@ func (g *gen) checkFrameElems(st *State, p *Val, pos token.Pos) {
 					typeKey(p.Addr.Root) == typeKey(sv.V.T.Underlying().(*types.Slice).Elem()) {
 					allowed = Or(allowed, Eq(p.L[0], sv.V.Arr()))
 				}
+				continue
+			}
+		}
+		// single element target covers a bulk write of exactly that slot
+		if ix, ok := m.(*ast.IndexExpr); ok && count != nil {
+			_ = ix
+			a := env.evalAddr(m)
+			if a != nil && a.V != nil && a.V.Addr != nil && a.V.Addr.Known && a.V.Addr.Elem && typeKey(a.V.Addr.Root) == typeKey(p.Addr.Root) {
+				allowed = Or(allowed, And(Eq(p.L[0], a.V.L[0]), Eq(p.Addr.Idx, a.V.Addr.Idx), Le(count, Int(1))))
 			}
 		}
 	}
@@ -650,9 +704,9 @@ func (g *gen) appendOp(st *State, instr ssa.Instruction, args []*Val, res ssa.Va
 	cp := Ite(inPlace, s.Cap(), newCap)
 	// a nil/empty-cap slice always reallocates; in-place writes must be framed
 	if g.con != nil && !g.sweep && !g.con.ModAll && g.dry == 0 {
-		p := &Val{T: types.NewPointer(et), L: []*Term{s.Arr()}, Addr: &AddrInfo{Root: et, Elem: true, Idx: s.Off(), Known: true}}
+		p := &Val{T: types.NewPointer(et), L: []*Term{s.Arr()}, Addr: &AddrInfo{Root: et, Elem: true, Idx: Add(s.Off(), s.Len()), Known: true}}
 		st2 := &State{reach: And(st.reach, inPlace), heap: st.heap, wm: st.wm}
-		g.checkFrameElems(st2, p, instr.Pos())
+		g.checkFrameElems(st2, p, instr.Pos(), tl)
 	}
 	a := &AddrInfo{Root: et, Known: true, Elem: true}
 	for _, l := range leavesOf(et) {
@@ -684,6 +738,7 @@ func (g *gen) goStmt(st *State, x *ssa.Go) {
 	// The spawned function runs concurrently; no interleaving semantics.
 	// Its preconditions (if it has a contract) are checked here.
 	g.note("go statement: spawned function verified separately, no interleaving semantics")
+	g.effect(st, "go statement", nil)
 	if fn, ok := x.Call.Value.(*ssa.Function); ok {
 		if con := g.eng.contracts.byKey[fn.String()]; con != nil {
 			pre := &State{reach: st.reach, heap: st.heap, wm: st.wm}
